@@ -62,3 +62,324 @@ def ranks_monotone(h):
         }
 
     h.ensures("nested_ranks", (rb[0] <= ra[0]) & (ra[1] <= rb[1]), replay=rp)
+
+
+# ---- clip ranges, unit intervals ------------------------------------------------------------------------
+from pyvc import frames, sums  # noqa: E402
+from pyvc.values import ONE, Space  # noqa: E402
+
+
+def quantiles_contract(registry):
+    """contract of BootstrapElectionModel._get_quantiles as proved in units `ranks` / `ranks_monotone`:
+    requires 0 < alpha < 1, B >= 2; ensures 0 <= lower_q <= upper_q <= (B-1)/B and nesting for nested levels."""
+
+    def con(interp, self, alpha):
+        a = alpha if isinstance(alpha, V) else V(z3.RealVal(repr(alpha)))
+        B = self.attrs["B"]
+        Bt = B.t if isinstance(B, V) else z3.IntVal(B)
+        interp.ctx.oblige("_get_quantiles.pre.alpha_open", z3.And(a.t > 0, a.t < 1), kind="callee-pre")
+        interp.ctx.oblige("_get_quantiles.pre.B_ge_2", Bt >= 2, kind="callee-pre")
+        key = a.t.get_id()
+        if key not in registry:
+            lq, uq = z3.Real(f"lower_q!{len(registry)}"), z3.Real(f"upper_q!{len(registry)}")
+            interp.ctx.assume(z3.And(0 <= lq, lq <= uq, uq * z3.ToReal(Bt) <= z3.ToReal(Bt) - 1, uq <= 1))
+            for (a2, l2, u2) in registry.values():
+                interp.ctx.assume(z3.Implies(a.t <= a2, z3.And(l2 <= lq, uq <= u2)))
+                interp.ctx.assume(z3.Implies(a2 <= a.t, z3.And(lq <= l2, u2 <= uq)))
+            registry[key] = (a.t, lq, uq)
+        _, lq, uq = registry[key]
+        return (V(lq, meta="numpy"), V(uq, meta="numpy"))
+
+    return con
+
+
+def boot_self(h, **attrs):
+    B = h.int("B")
+    h.requires("B_ge_2", B >= 2)
+    a = dict(B=B)
+    a.update(attrs)
+    return h.obj(BEM, **a), B
+
+
+@unit("C06", "nonreporting_bounds.margin", fn=f"{BEM}._generate_nonreporting_bounds")
+def bounds_margin(h):
+    sp, f = frames.unit_universe("units")
+    h.ctx.assume(z3.And(*sp.facts()))
+    u = sp.u
+    pev = z3.Function("pev", z3.IntSort(), z3.RealSort())(u)
+    y = z3.Function("results_normalized_margin", z3.IntSort(), z3.RealSort())(u)
+    N = z3.Function("inNonrep", z3.IntSort(), z3.BoolSort())(u)
+    h.syms.update(pev=z3.Function("pev", z3.IntSort(), z3.RealSort()), results_normalized_margin=z3.Function("results_normalized_margin", z3.IntSort(), z3.RealSort()))
+    fr = frames.base_frame(sp, N, {"percent_expected_vote": pev, "results_normalized_margin": y}, None)
+    h.requires("V2", pev >= 0, y >= -1, y <= 1)
+    ylo, yhi = h.real("y_unobserved_lower_bound"), h.real("y_unobserved_upper_bound")
+    h.requires("V6", -1 <= ylo, ylo <= yhi, yhi <= 1)
+    self = h.obj(BEM, y_unobserved_lower_bound=ylo, y_unobserved_upper_bound=yhi)
+    kind, res = h.call_method(self, "_generate_nonreporting_bounds", fr, "results_normalized_margin")
+    if kind == "raise":
+        return h.fail("no_raise", f"raised {res}")
+    lo, hi = res
+
+    def rp(ev):
+        return {"target": "verif_replays:nonreporting_bounds", "args": ["results_normalized_margin", float(ev(pev)), float(ev(y)), float(ev(ylo)), float(ev(yhi))], "check": "result['exc'] is None and -1 <= result['lo'] <= result['hi'] <= 1"}
+
+    rows = z3.And(*fr.axis.facts())
+    h.ensures("margin_bounds_within_minus_one_one", z3.Implies(rows, z3.And(-1 <= lo.t, lo.t <= 1, -1 <= hi.t, hi.t <= 1)), replay=rp)
+    h.ensures("margin_bounds_ordered", z3.Implies(rows, lo.t <= hi.t), replay=rp)
+    h.ensures("margin_bounds_finite", z3.Implies(rows, z3.And(z3.Not(lo.nf()) if lo.nf() is not None else True, z3.Not(hi.nf()) if hi.nf() is not None else True)))
+    h.ensures("one_row_per_unit_column_vector", lo.axes == (fr.axis, ONE) and hi.axes == (fr.axis, ONE))
+
+
+@unit("C06", "nonreporting_bounds.turnout_factor", fn=f"{BEM}._generate_nonreporting_bounds")
+def bounds_turnout(h):
+    sp, f = frames.unit_universe("units")
+    h.ctx.assume(z3.And(*sp.facts()))
+    u = sp.u
+    pev = z3.Function("pev", z3.IntSort(), z3.RealSort())(u)
+    z = z3.Function("turnout_factor", z3.IntSort(), z3.RealSort())(u)
+    N = z3.Function("inNonrep", z3.IntSort(), z3.BoolSort())(u)
+    fr = frames.base_frame(sp, N, {"percent_expected_vote": pev, "turnout_factor": z}, None)
+    h.requires("V2", pev >= 0, z >= 0)
+    zlo, zhi, err = h.real("z_unobserved_lower_bound"), h.real("z_unobserved_upper_bound"), h.real("percent_expected_vote_error_bound")
+    h.requires("V6", 0 <= zlo, zlo <= zhi, err >= 0)
+    self = h.obj(BEM, z_unobserved_lower_bound=zlo, z_unobserved_upper_bound=zhi, percent_expected_vote_error_bound=err)
+    kind, res = h.call_method(self, "_generate_nonreporting_bounds", fr, "turnout_factor")
+    if kind == "raise":
+        return h.fail("no_raise", f"raised {res}")
+    lo, hi = res
+    rows = z3.And(*fr.axis.facts())
+    h.ensures("turnout_bounds_non_negative", z3.Implies(rows, z3.And(lo.t >= 0, hi.t >= 0)))
+    h.ensures("turnout_bounds_finite", z3.Implies(rows, z3.And(z3.Not(lo.nf()) if lo.nf() is not None else True, z3.Not(hi.nf()) if hi.nf() is not None else True)))
+
+
+class _Opq:
+    """a value of the un-modelled prefix of compute_bootstrap_errors (never inspected)"""
+
+    def pyvc_getattr(self, interp, name):
+        return _Opq()
+
+
+@unit("C06", "bootstrap_tail.ranges", fns=[f"{BEM}.compute_bootstrap_errors", f"{BEM}._generate_nonreporting_bounds"])
+def tail(h):
+    """the statements of compute_bootstrap_errors from the final clip of the bootstrapped margins to the end,
+    executed from the real AST with everything computed before them ARBITRARY (fits, residuals, draws are
+    unconstrained arrays of shape (n_test, B)); the clip bounds are the real _generate_nonreporting_bounds."""
+    sp, f = frames.unit_universe("units")
+    h.ctx.assume(z3.And(*sp.facts()))
+    u = sp.u
+    I, R = z3.IntSort(), z3.RealSort()
+    pev = z3.Function("pev", I, R)(u)
+    y = z3.Function("results_normalized_margin", I, R)(u)
+    zf = z3.Function("turnout_factor", I, R)(u)
+    w = z3.Function("baseline_weights", I, R)(u)
+    N = z3.Function("inNonrep", I, z3.BoolSort())(u)
+    fr = frames.base_frame(sp, N, {"percent_expected_vote": pev, "results_normalized_margin": y, "turnout_factor": zf, "baseline_weights": w}, None)
+    h.requires("V2", pev >= 0, y >= -1, y <= 1, zf >= 0, w >= 0)
+    ylo, yhi = h.real("y_unobserved_lower_bound"), h.real("y_unobserved_upper_bound")
+    zlo, zhi, err = h.real("z_unobserved_lower_bound"), h.real("z_unobserved_upper_bound"), h.real("percent_expected_vote_error_bound")
+    h.requires("V6", -1 <= ylo, ylo <= yhi, yhi <= 1, 0 <= zlo, zlo <= zhi, err >= 0)
+    self, B = boot_self(h, y_unobserved_lower_bound=ylo, y_unobserved_upper_bound=yhi, z_unobserved_lower_bound=zlo, z_unobserved_upper_bound=zhi, percent_expected_vote_error_bound=err)
+    kind, yb = h.call_method(self, "_generate_nonreporting_bounds", fr, "results_normalized_margin")
+    kind2, zb = h.call_method(self, "_generate_nonreporting_bounds", fr, "turnout_factor")
+    if kind == "raise" or kind2 == "raise":
+        return h.fail("bounds.no_raise", "raised")
+    draws = Space("draws", n=B.t)
+    h.ctx.assume(z3.And(*draws.facts()))
+
+    def arr(name):
+        fn = z3.Function(name, I, I, R)
+        return V(fn(u, draws.u), (fr.axis, draws))
+
+    zraw = arr("z_model_draw")
+    # the earlier statement `z_test_pred_B = (...).clip(min=z_partial_reporting_lower, max=z_partial_reporting_upper)`
+    class _Pred:
+        def __init__(self, v):
+            self.v = v
+
+        def pyvc_getattr(self, interp, name):
+            return lambda *a, **k: self.v
+
+    class _Ind:
+        def pyvc_binop(self, interp, op, o, rev):
+            return V(z3.RealVal(0))
+
+    k, env1 = h.slice(f"{BEM}.compute_bootstrap_errors", first_assign="z_test_pred_B", last_assign="z_test_pred_B", env={"self": self, "ols_z_B": _Pred(zraw), "x_test": _Opq(), "aggregate_indicator_test": _Ind(), "epsilon_z_hat_B": _Opq(), "z_partial_reporting_lower": zb[0], "z_partial_reporting_upper": zb[1]})
+    if k == "raise":
+        return h.fail("z_clip.no_raise", f"raised {env1}")
+    h.contracts[f"{BEM}._sample_test_errors"] = lambda interp, s, *a, **kw: (arr("test_residual_y"), arr("test_residual_z"))
+    env = {"self": self, "y_test_pred_B": arr("y_model_draw"), "z_test_pred_B": env1["z_test_pred_B"], "y_partial_reporting_lower": yb[0], "y_partial_reporting_upper": yb[1], "z_partial_reporting_lower": zb[0], "z_partial_reporting_upper": zb[1], "weights_test": V(w, (fr.axis, ONE)), "contest_indicator": _Opq()}
+    for nm in ("residuals_y", "residuals_z", "epsilon_y_hat", "epsilon_z_hat", "x_test_strata", "stratum_ppfs_delta_y", "stratum_ppfs_delta_z", "aggregate_indicator_train", "aggregate_indicator_test"):
+        env[nm] = _Opq()
+    k, out = h.slice(f"{BEM}.compute_bootstrap_errors", first_assign="y_test_pred_B", first_is_last_assignment=True, last_assign="self.ran_bootstrap", env=env)
+    if k == "raise":
+        return h.fail("tail.no_raise", f"raised {out}")
+    rows = z3.And(*fr.axis.facts(), *draws.facts())
+    yB = out["y_test_pred_B"]
+    h.ensures("every_bootstrapped_margin_in_range", z3.Implies(rows, z3.And(-1 <= yB.t, yB.t <= 1)))
+    zB = env1["z_test_pred_B"]
+    h.ensures("every_bootstrapped_turnout_factor_non_negative", z3.Implies(rows, zB.t >= 0))
+    ypred, zpred = out["y_test_pred"], out["z_test_pred"]
+    # lemma sum_bound on the two bootstrap means (lean/FrameSums.lean): entries in [lo,hi] => mean in [lo,hi]
+    for v, lo_, hi_, nm in ((ypred, z3.RealVal(-1), z3.RealVal(1), "y"), (zpred, z3.RealVal(0), None, "z")):
+        d = v.meta[1]
+        sums.lemma_sum_bound(h.ctx, d, B.t, lo=lo_, hi=hi_, name=f"lemma.mean_bound.{nm}")
+    h.ensures("predicted_margin_in_range", z3.Implies(rows, z3.And(-1 <= ypred.t, ypred.t <= 1)))
+    h.ensures("predicted_turnout_factor_non_negative", z3.Implies(rows, zpred.t >= 0))
+    wz, wyz = self.attrs["weighted_z_test_pred"], self.attrs["weighted_yz_test_pred"]
+    h.ensures("unit_predicted_turnout_non_negative", z3.Implies(rows, wz.t >= 0))
+    h.ensures("unit_predicted_margin_bounded_by_turnout", z3.Implies(rows, z3.And(wyz.t <= wz.t, -wyz.t <= wz.t)))
+    e1, e2, e3, e4 = (self.attrs[f"errors_B_{i}"] for i in (1, 2, 3, 4))
+    h.ensures("bootstrap_draws_margin_bounded_by_turnout", z3.Implies(rows, z3.And(e3.t >= 0, e4.t >= 0, e1.t <= e3.t, -e1.t <= e3.t, e2.t <= e4.t, -e2.t <= e4.t)))
+    h.ensures("shapes", e1.axes == (fr.axis, draws) and wyz.axes == (fr.axis, ONE))
+
+
+# ---- bootstrap aggregate predictions: turnout/margin identities, range, race calls -------------------------
+from contracts.common import AGGS, symlist  # noqa: E402
+
+
+def format_contract(interp, self, lhs, rhs, contests, lhs_value, rhs_value, fill_value):
+    """contract of _format_called_contests as proved in C07.format: raises the dedicated error iff the lists are
+    contradictory or name an unknown contest; otherwise entry(c) = lhs_value / rhs_value / fill_value."""
+    from pyvc.values import ExcVal, SymRaise
+
+    x = z3.String("x_c")
+    C = contests.mem()
+    L = lhs.mem() if hasattr(lhs, "mem") else (lambda t: z3.BoolVal(False))
+    Rr = rhs.mem() if hasattr(rhs, "mem") else (lambda t: z3.BoolVal(False))
+    bad = z3.Exists([x], z3.Or(z3.And(L(x), Rr(x)), z3.And(L(x), z3.Not(C(x))), z3.And(Rr(x), z3.Not(C(x)))))
+    if interp.ctx.branch(V(bad), "format-called-raises"):
+        raise SymRaise(ExcVal("BootstrapElectionModelException", ("contradictory or unknown contests",), ("Exception",)))
+    interp.ctx.assume(z3.And(*contests.facts()))
+    c = contests.elem
+    from pyvc.values import to_term
+
+    def tt(v):
+        return to_term(v) if v is not None else z3.IntVal(-999)
+
+    lv, rv, fv = tt(lhs_value), tt(rhs_value), tt(fill_value)
+    if lv.sort() != fv.sort():
+        raise Exception("format contract: mixed value sorts")
+    val = z3.If(L(c), lv, z3.If(Rr(c), rv if rv.sort() == fv.sort() else fv, fv))
+    return V(val, (contests.space,))
+
+
+class BootWorld:
+    """three frames with the columns the bootstrap aggregate functions read"""
+
+    def __init__(self, h):
+        from contracts.common import Three
+
+        self.t = t = Three(h, "margin", extra=("baseline_weights", "turnout_factor", "results_normalized_margin"), int_extra=("results_dem", "results_gop", "baseline_dem", "baseline_gop", "baseline_turnout"))
+        u = t.root.u
+        I, R = z3.IntSort(), z3.RealSort()
+        self.h = h
+        c = t.rep.cols
+        dem, gop = c["results_dem"].t, c["results_gop"].t
+        self.dem, self.gop = dem, gop
+        self.rw = dem + gop
+        for f_ in (t.rep, t.nonrep, t.third):
+            f_.cols["results_weights"] = V(dem + gop, (f_.axis,), f_.index)
+        self.bw, self.tf = c["baseline_weights"].t, c["turnout_factor"].t
+        # V2 and the post-state of C09: margin = dem - gop, counts non-negative; on reporting rows the baseline
+        # weight is not zero and turnout_factor = results_weights / baseline_weights
+        h.forall_rows(t.root, z3.And(dem >= 0, gop >= 0, t.res == dem - gop))
+        h.forall_rows(t.root, z3.Implies(t.R, z3.And(self.bw > 0, self.tf * self.bw == dem + gop)))
+        B = h.int("B")
+        h.requires("B_ge_2", B >= 2)
+        self.B = B
+        self.draws = Space("draws", n=B.t)
+        h.ctx.assume(z3.And(*self.draws.facts()))
+        self.wz = z3.Function("weighted_z_test_pred", I, R)(u)
+        self.wyz = z3.Function("weighted_yz_test_pred", I, R)(u)
+        # post-state of unit `bootstrap_tail.ranges`
+        h.forall_rows(t.root, z3.Implies(t.N, z3.And(self.wz >= 0, self.wyz <= self.wz, -self.wyz <= self.wz)))
+        # unit-level columns written by ModelResultsHandler.add_unit_predictions
+        t.rep.cols["pred_margin"] = t.rep.cols["results_margin"]
+        t.third.cols["pred_margin"] = t.third.cols["results_margin"]
+        t.nonrep.cols["pred_margin"] = V(self.wyz, (t.nonrep.axis,), t.nonrep.index)
+
+    def model(self, **attrs):
+        t = self.t
+        a = dict(B=self.B, lhs_called_threshold=0.005, rhs_called_threshold=-0.005, weighted_z_test_pred=V(self.wz, (t.nonrep.axis, ONE)), weighted_yz_test_pred=V(self.wyz, (t.nonrep.axis, ONE)), called_contests=None, stop_model_call=None)
+        a.update(attrs)
+        return self.h.obj(BEM, **a)
+
+
+def _boot_agg(aggname, keys):
+    @unit("C06", f"aggregate_predictions.{aggname}", fns=[f"{BEM}.get_aggregate_predictions", f"{BEM}._adjust_called_contests", f"{BEM}._is_top_level_aggregate", "elexmodel.models.BaseElectionModel.BaseElectionModel.get_aggregate_predictions"])
+    def agg(h):
+        w = BootWorld(h)
+        t = w.t
+        h.contracts[f"{BEM}._format_called_contests"] = format_contract
+        self = w.model()
+        lhs, rhs = symlist(h, "lhs"), symlist(h, "rhs")
+        # post-state of get_units (C11.unexpected_units.*): a requested county/district key is never null on the
+        # third frame (unexpected units get it from their id, non-modelled units from the baseline)
+        for k in keys[1:]:
+            if k != "county_classification":
+                h.forall_rows(t.root, z3.Not(t.knullT[k]))
+        kind, res = h.call_method(self, "get_aggregate_predictions", t.rep, t.nonrep, t.third, list(keys), "margin", lhs_called_contests=lhs, rhs_called_contests=rhs)
+        classification = "county_classification" in keys
+        if kind == "raise":
+            if res.clsname == "BootstrapElectionModelException":
+                return h.ensures("raises_only_through_call_validation", True)
+            if res.clsname == "TypeError" and classification:
+                # third-frame units without a classification (every unexpected unit) reach "_".join as NaN
+                return h.fail("C11.classification.join_args_are_strings", f"raised {res}", replay=lambda ev: {"target": "verif_replays:bootstrap_classification_unexpected", "args": [], "check": "result['exc'] is None"})
+            return h.fail("C11.no_failure_other_than_call_validation", f"raised {res}")
+        if not classification:
+            pass
+        rows = z3.And(*res.axis.facts())
+        zR, dzR = t.gsum("R", keys, w.bw * w.tf)
+        zT, dzT = t.gsum("T", keys, w.rw)
+        zN, dzN = t.gsum("N", keys, w.wz)
+        mR, dmR = t.gsum("R", keys, t.res)
+        mT, dmT = t.gsum("T", keys, t.res)
+        mN, dmN = t.gsum("N", keys, w.wyz)
+        rN, drN = t.gsum("N", keys, t.res)
+        pt = res.col("pred_turnout")
+        # the units attributable to a group: third-frame units count for state/county/district groups, never for
+        # classification groups (C01) -- numerator and denominator range over the SAME units (statement of C02)
+        zT_attr = z3.RealVal(0) if classification else zT
+        h.ensures("C02.pred_turnout_is_sum_of_unit_turnout", z3.Implies(rows, pt.t == zT_attr + zR + zN))
+        num_pred = (mR if classification else mR + mT) + mN
+        pm = res.col("pred_margin")
+        top = (len(keys) == 1 and "postal_code" in keys) or (len(keys) == 2 and "postal_code" in keys and "district" in keys)
+        den = zT_attr + zR + zN
+        ratio = z3.If(den == 0, z3.RealVal(0), z3.ToReal(num_pred) / den) if z3.is_int(num_pred) else z3.If(den == 0, z3.RealVal(0), num_pred / den)
+        if not top:
+            h.ensures("C02.pred_margin_is_sum_of_unit_margins_over_turnout", z3.Implies(z3.And(rows, z3.Or(den != 0, num_pred == 0)), pm.t == ratio))
+        # lemma wavg_bounds (lean/FrameSums.lean): |Σ n_i| <= Σ d_i when |n_i| <= d_i pointwise
+        for dn, dd, nm in ((dmR, dzR, "R"), (dmT, dzT, "T"), (dmN, dzN, "N")):
+            lemma_abs(h, dn, dd, f"lemma.wavg_bounds.{nm}")
+        h.ensures("pred_turnout_non_negative", z3.Implies(rows, pt.t >= 0))
+        h.ensures("pred_margin_in_range", z3.Implies(rows, z3.And(-1 <= pm.t, pm.t <= 1)))
+        h.ensures("no_nan", pm.nan is None and pt.nan is None)
+        if top:
+            called = self.attrs["aggregate_pred_margin"]
+            gs = frames.keyspace(list(keys), {k: z3.StringSort() for k in keys})
+            cname = gs.keyvars[keys[0]]
+            for k in keys[1:]:
+                cname = z3.Concat(cname, z3.StringVal("_"), gs.keyvars[k])
+            L, Rr = lhs.mem()(cname), rhs.mem()(cname)
+            h.ensures("C07.called_left_pred_at_least_threshold", z3.Implies(z3.And(rows, L), pm.t >= z3.RealVal("0.005")))
+            h.ensures("C07.called_right_pred_at_most_threshold", z3.Implies(z3.And(rows, Rr), pm.t <= z3.RealVal("-0.005")))
+            h.ensures("C07.uncalled_pred_unchanged", z3.Implies(z3.And(rows, z3.Not(L), z3.Not(Rr), z3.Or(den != 0, num_pred == 0)), pm.t == ratio))
+            h.ensures("C08.summary_state_written_at_top_level", "aggregate_pred_margin" in self.written)
+        else:
+            h.ensures("C08.summary_state_not_touched_below_top_level", "aggregate_pred_margin" not in self.written and "aggregate_baseline_margin" not in self.written)
+
+    return agg
+
+
+def lemma_abs(h, dn, dd, name):
+    """|Σ_A n| <= Σ_A d  when |n| <= d pointwise on A (same domain)"""
+    if dn.space is not dd.space or not z3.eq(dn.dom, dd.dom):
+        raise Exception("lemma_abs over different domains")
+    sums._use("wavg_bounds")
+    h.ctx.oblige(name + "/side.pointwise", z3.Implies(z3.And(*(dn.space.facts() + [dn.dom])), z3.And(dn.summand <= dd.summand, -dn.summand <= dd.summand)), kind="lemma-side")
+    h.ctx.assume(z3.And(dn.sym <= dd.sym, -dn.sym <= dd.sym))
+
+
+for _n, _k in AGGS.items():
+    _boot_agg(_n, _k)
